@@ -13,6 +13,7 @@ import (
 	"sort"
 	"strings"
 	"sync"
+	"time"
 
 	"google.golang.org/protobuf/proto"
 	"google.golang.org/protobuf/reflect/protoreflect"
@@ -52,6 +53,9 @@ type FakeAE struct {
 	txn      uint64
 	// Fail decides whether an API call fails (injected fault); kinds are the datastore kinds touched.
 	Fail func(service, method string, kinds []string) bool
+	// PutHook, if set, is consulted for every datastore Put with the keys ("kind|name") it writes: it may
+	// delay the call and decides whether it fails (faults on single blob parts, ordered completions).
+	PutHook func(keys []string) (fail bool, delay time.Duration)
 	// OAuth maps a ticket to (email, admin); "" email = no valid OAuth credentials.
 	OAuth func(ticket string) (email string, admin bool)
 	// OnStore, if set, is called (with the store's lock held, i.e. at the linearisation point) for
@@ -216,6 +220,18 @@ func (f *FakeAE) dispatch(service, method, ticket string, payload []byte) (out p
 		}
 		if failIf() {
 			return nil, kinds, keys, "injected datastore failure"
+		}
+		f.mu.Lock()
+		ph := f.PutHook
+		f.mu.Unlock()
+		if ph != nil {
+			fail, delay := ph(keys)
+			if delay > 0 {
+				time.Sleep(delay)
+			}
+			if fail {
+				return nil, kinds, keys, "injected datastore failure"
+			}
 		}
 		res := newMsg("appengine.PutResponse").ProtoReflect()
 		kl := res.Mutable(fld(res, "key")).List()
